@@ -21,6 +21,7 @@ type AppStats struct {
 	NoiseChecks, NoiseChecksPassed, NoiseQueries                                   int
 	NoiseFreshChecks, NoiseFreshPassed                                             int
 	NoiseFreshToContract                                                           int
+	JudgedPerturbed                                                                int
 	NoiseQueriesCompared                                                           int
 	NoiseQueryDiffs                                                                []string
 	ReplicaDiffs, NoiseDiffs, RestartDiffs, NoisePanics                            []string
@@ -58,6 +59,7 @@ func GenerateCases(seed int64, n, blocks int, outPath, scratch, jsonPath, profil
 	if st != nil {
 		st.Corpus = corpus
 	}
+	var judged []*History // traces of perturbed nodes (mempool traffic, restarts) that the predicates judge too
 	if err == nil && (strings.Contains(profile, "replica") || strings.Contains(profile, "noise") || strings.Contains(profile, "restart")) {
 		for i, h := range hs {
 			if h.Err != "" {
@@ -89,6 +91,10 @@ func GenerateCases(seed int64, n, blocks int, outPath, scratch, jsonPath, profil
 				if rerr != nil {
 					return nil, rerr
 				}
+				if strings.Contains(profile, "judge") && r.Err == "" && len(r.Snaps) == len(h.Snaps) {
+					r.Seed = h.Seed
+					judged = append(judged, r)
+				}
 				st.NoiseRuns++
 				st.NoiseChecks += ps.Checks
 				st.NoiseChecksPassed += ps.ChecksPassed
@@ -113,7 +119,8 @@ func GenerateCases(seed int64, n, blocks int, outPath, scratch, jsonPath, profil
 					// restart after blocks that changed the validator set or carried transactions, and some others
 					bi := int(b.Height) - 1
 					interesting := bi < len(h.Obs) && (len(h.Obs[bi].ValUpdates) > 0 || len(b.Txs) > 2)
-					if (interesting && rr.Intn(2) == 0) || rr.Intn(6) == 0 {
+					// (the per-property "judge" runs restart only where something is in flight, see below)
+					if !strings.Contains(profile, "judge") && ((interesting && rr.Intn(2) == 0) || rr.Intn(6) == 0) {
 						rs[b.Height] = true
 					}
 					// always: while something is in flight across blocks — a stake was just released
@@ -137,13 +144,17 @@ func GenerateCases(seed int64, n, blocks int, outPath, scratch, jsonPath, profil
 							}
 						}
 					}
-					if h.Seed >= 900000 {
+					if h.Seed >= 900000 && !strings.Contains(profile, "judge") {
 						rs[b.Height] = true
 					}
 				}
 				r, ps, rerr := RerunPerturbed(h, scratch, fmt.Sprintf("restarted-%d", i), Perturb{RestartAfter: rs})
 				if rerr != nil {
 					return nil, rerr
+				}
+				if strings.Contains(profile, "judge") && r.Err == "" && len(r.Snaps) == len(h.Snaps) {
+					r.Seed = h.Seed
+					judged = append(judged, r)
 				}
 				st.RestartRuns++
 				st.Restarts += ps.Restarts
@@ -155,6 +166,16 @@ func GenerateCases(seed int64, n, blocks int, outPath, scratch, jsonPath, profil
 				}
 			}
 		}
+	}
+	if err == nil && len(judged) > 0 {
+		// the case file is written again with the perturbed nodes' traces appended: model and predicate
+		// are evaluated on what THOSE nodes answered as well
+		st2, werr := writeCases(append(append([]*History(nil), hs...), judged...), outPath, jsonPath, evals)
+		if werr != nil {
+			return nil, werr
+		}
+		st.JudgedPerturbed = len(judged)
+		_ = st2
 	}
 	if err == nil && strings.Contains(profile, "queries") {
 		for i, h := range hs {
